@@ -57,12 +57,16 @@ func init() {
 	nShapes := len(drv.ProcShapes())
 	register(&Check{
 		ID: "C20", Level: "exploration",
-		Rule:        "REAL process trees from a grammar (16 shapes: plain, nested bash -c depth 2 and 4, shell-level background jobs with and without wait, interpreter-level `cmd &`, pipelines of 3 stages at interpreter and shell level, subshells, children that trap '' INT, INT-ignoring parent with forked grandchild, a leaf that exits 100 ms after INT, two commands in sequence, and two shapes with an INT-ignoring process that is detached from the task's output) x cancel instant (tree fully up, immediately after the schedule request, after a random part of the start-up) x CancelJob / forced Shutdown (of a runner that also holds 12 jobs that ended earlier) x 0-2 other jobs with their own trees; kill timeout 300 ms; plus cases with kill timeout 0 / negative / 150 ms / 700 ms on interrupt-ignoring trees next to a control job whose process dies on the interrupt (its cancel-to-report latency calibrates the allowance: finished within K + max(1.5 s, 10 x control)). plus forced shutdowns with a kill timeout of 5.5 s / 6.5 s (nothing of the job may be alive when Shutdown returns); plus jobs of two tasks canceled exactly in the gap between them (loop parked through hook H1) while a background command of the first task is alive. Every process carries a per-run, per-job marker in its environment; oracle = /proc scan (environ + state != Z) at the instant the job is first observed completed, and again after kill timeout + allowance; elapsed time is counted in heartbeats of the harness process (limit kill timeout + 5 s). Processes of uncanceled jobs must still be alive. A situation is (shape, cancel instant, via shutdown, #others, #processes up at cancel)",
+		Rule:        "REAL process trees from a grammar (16 shapes: plain, nested bash -c depth 2 and 4, shell-level background jobs with and without wait, interpreter-level `cmd &`, pipelines of 3 stages at interpreter and shell level, subshells, children that trap '' INT, INT-ignoring parent with forked grandchild, a leaf that exits 100 ms after INT, two commands in sequence, and two shapes with an INT-ignoring process that is detached from the task's output) x cancel instant (tree fully up, immediately after the schedule request, after a random part of the start-up) x CancelJob / forced Shutdown (of a runner that also holds 12 jobs that ended earlier) x 0-2 other jobs with their own trees; kill timeout 300 ms; plus cases with kill timeout 0 / negative / 150 ms / 700 ms on interrupt-ignoring trees next to a control job whose process dies on the interrupt (its cancel-to-report latency calibrates the allowance: finished within K + max(1.5 s, 10 x control)). plus forced shutdowns with a kill timeout of 5.5 s / 6.5 s (nothing of the job may be alive when Shutdown returns); plus forced shutdowns over 4-5 running jobs that ALL ignore the interrupt (kill timeout 0.9 / 1.2 s; every job finished within kill timeout + calibrated allowance, i.e. stopped side by side and not one after the other); plus jobs of two tasks canceled exactly in the gap between them (loop parked through hook H1) while a background command of the first task is alive. Every process carries a per-run, per-job marker in its environment; oracle = /proc scan (environ + state != Z) at the instant the job is first observed completed, and again after kill timeout + allowance; elapsed time is counted in heartbeats of the harness process (limit kill timeout + 5 s). Processes of uncanceled jobs must still be alive. A situation is (shape, cancel instant, via shutdown, #others, #processes up at cancel)",
 		Assumptions: []string{"processes that leave the process group (setsid) are excluded by the statement", "the timed bound uses a 5 s allowance measured in heartbeats so that a stalled machine stalls the clock"},
 		Cases: func(t string) int {
-			return tierN(t, nShapes*3, nShapes*3*2*3*8) + tierN(t, 12, 240) + tierN(t, 6, 120) + tierN(t, 4, 80) + tierN(t, 2, 8)
+			return tierN(t, nShapes*3, nShapes*3*2*3*8) + tierN(t, 12, 240) + tierN(t, 6, 120) + tierN(t, 4, 80) + tierN(t, 2, 8) + tierN(t, 2, 16)
 		},
 		RunCase: func(c *CaseCtx) *CaseResult {
+			if base := tierN(c.Tier, nShapes*3, nShapes*3*2*3*8) + tierN(c.Tier, 12, 240) + tierN(c.Tier, 6, 120) + tierN(c.Tier, 4, 80) + tierN(c.Tier, 2, 8); c.Idx >= base {
+				// a forced shutdown over 4-5 running jobs that all ignore the interrupt: every one is finished within the kill timeout
+				return simpleCase(c, drv.RunForcedShutdownManyIgnorersCase(int64(c.Idx-base), c.TmpDir), 1)
+			}
 			if base := tierN(c.Tier, nShapes*3, nShapes*3*2*3*8) + tierN(c.Tier, 12, 240) + tierN(c.Tier, 6, 120) + tierN(c.Tier, 4, 80); c.Idx >= base {
 				// a kill timeout far longer than the default (5.5 s / 6.5 s): a forced Shutdown returns only when nothing is left
 				return simpleCase(c, drv.RunLongKillTimeoutShutdownCase(int64(c.Idx-base), c.TmpDir), 1)
